@@ -373,9 +373,14 @@ func checkC03(c *Check) {
 			c.Note("corpus document %x is not accepted by the CBE decoder with rules", doc)
 		}
 		rnd := rand.New(rand.NewSource(int64(len(doc))*31 + int64(abs.H[0]) + c.Seed))
+		// a mutated length field may announce anything up to the array size limit, and the reader reserves
+		// twice that before reading: with the default of 1 GiB sixteen parallel conversions exhaust the
+		// machine (what that costs is C08's subject), so mutants are read under a limit of 1 MiB
+		mcfg := *cfg
+		mcfg.Rules.MaxArraySizeBytes = 1 << 20
 		for m := 0; m < muts; m++ {
 			md := mutateBytes(doc, rnd)
-			if len(md) > 0 && c03FromCBE(c, "mutated corpus", md, cfg) {
+			if len(md) > 0 && c03FromCBE(c, "mutated corpus", md, &mcfg) {
 				atomic.AddInt64(&mutCBE, 1)
 				c.Count("cbe"+hex.EncodeToString(md), true)
 			}
@@ -395,6 +400,7 @@ func checkC03(c *Check) {
 		var local int64
 		runCBEDecGen(c, g, func(lf decLeaf, doc []byte) {
 			cfg := configuration.New()
+			cfg.Rules.MaxArraySizeBytes = 1 << 20 // see above
 			if c03FromCBE(c, g.Label, doc, cfg) {
 				atomic.AddInt64(&accCBE, 1)
 				atomic.AddInt64(&local, 1)
